@@ -70,7 +70,7 @@ PROPS = {
         "assumptions": ["hits/dets input naming an index twice and b8 padding bits that are set are declared don't-care for bit values (no writer produces them); only safety is compared there"],
     },
     "C20": {
-        "lean_modules": ["StimModel.Props.C20", "StimModel.Core.Transpose", "StimModel.Core.Bits", "StimModel.Props.XorVec", "StimModel.Props.C20b", "StimModel.Props.C20c", "StimModel.Props.C20d"],
+        "lean_modules": ["StimModel.Props.C20", "StimModel.Core.Transpose", "StimModel.Core.Bits", "StimModel.Props.XorVec", "StimModel.Props.C20b", "StimModel.Props.C20c", "StimModel.Props.C20d", "StimModel.Props.C20e"],
         "areas": [
             {"area": "bits", "n": {"quick": 2400, "thorough": 60000}},
             {"area": "xorvec", "n": {"quick": 1200, "thorough": 40000}},
